@@ -47,7 +47,9 @@ type dialCase struct {
 	// honest
 	Extras bool `json:"extra_alpn,omitempty"`
 	State  bool `json:"client_state,omitempty"`
-	Unix   bool `json:"unix_socket,omitempty"`
+	// StateKind (with State): "" a nested struct | "empty" a struct without fields | "large" 12 kB
+	StateKind string `json:"client_state_kind,omitempty"`
+	Unix      bool   `json:"unix_socket,omitempty"`
 	// history
 	Ops      string `json:"ops,omitempty"`          // A authorize, D dial, R rotate roots
 	NExtras  int    `json:"n_extra_alpn,omitempty"` // history: every dial passes client state and this many extra protocols
@@ -469,7 +471,14 @@ func runHonest(c *engine.Ctx, dc dialCase) {
 	var opts []nodeenrollment.Option
 	var st *structpb.Struct
 	if dc.State {
-		st, _ = structpb.NewStruct(map[string]any{"a": map[string]any{"b": []any{1.0, "x"}}})
+		switch dc.StateKind {
+		case "empty":
+			st = &structpb.Struct{}
+		case "large":
+			st, _ = structpb.NewStruct(map[string]any{"blob": strings.Repeat("s", 12000)})
+		default:
+			st, _ = structpb.NewStruct(map[string]any{"a": map[string]any{"b": []any{1.0, "x"}}})
+		}
 		opts = append(opts, nodeenrollment.WithState(st))
 	}
 	if dc.Extras {
@@ -750,6 +759,10 @@ func runDialAdv(c *engine.Ctx) engine.Result {
 					for _, ux := range []bool{false, true} {
 						for _, wk := range []string{"normal", "both"} {
 							cases = append(cases, dialCase{Kind: "honest", NodeWrap: nw, Extras: ex, State: st, Unix: ux, World: wk})
+							if st {
+								cases = append(cases, dialCase{Kind: "honest", NodeWrap: nw, Extras: ex, State: true, StateKind: "empty", Unix: ux, World: wk})
+								cases = append(cases, dialCase{Kind: "honest", NodeWrap: nw, Extras: ex, State: true, StateKind: "large", Unix: ux, World: wk})
+							}
 						}
 					}
 				}
